@@ -25,18 +25,20 @@ def depConst : String := "'deprecated'"
 section
 variable {V : Type} [DecidableEq V]
 
-/-- value of a symbolic attribute for concrete arguments; `constV` interprets source constants -/
-def evalSym (constV : String → V) (args : String → V) : SymVal → V
+/-- value of a symbolic attribute for concrete arguments; `constV` interprets source constants.
+`=` on `V` stands for object identity; `isDep v` is the VALUE test `v == 'deprecated'` the constructors
+perform (an unpickled `'deprecated'` string is another object than the literal, yet passes this test) -/
+def evalSym (isDep : V → Bool) (constV : String → V) (args : String → V) : SymVal → V
   | .param p => args p
   | .const c => constV c
-  | .ite a t e => if args a ≠ constV depConst then evalSym constV args t else evalSym constV args e
+  | .ite a t e => if isDep (args a) then evalSym isDep constV args e else evalSym isDep constV args t
 
 def lookupAttr (l : List (String × SymVal)) (k : String) : Option SymVal :=
   (l.find? (·.1 == k)).map (·.2)
 
 /-- running `__init__`: attribute `p` after construction (`none` if never written) -/
-def runInit (t : InitTable) (constV : String → V) (args : String → V) (p : String) : Option V :=
-  (lookupAttr t.attrs p).map (evalSym constV args)
+def runInit (t : InitTable) (isDep : V → Bool) (constV : String → V) (args : String → V) (p : String) : Option V :=
+  (lookupAttr t.attrs p).map (evalSym isDep constV args)
 end
 
 def isAlias (t : InitTable) (p : String) : Bool := t.deprecated.any (·.1 == p)
@@ -47,12 +49,17 @@ def expectedAttr (t : InitTable) (p : String) : SymVal :=
   | some (a, _) => .ite a (.param a) (.param p)
   | none => .param p
 
+/-- what an alias attribute must hold: the `'deprecated'` literal when the alias was used, and otherwise the
+very object that was passed (which is a `'deprecated'` string): scikit-learn's `clone` checks that the
+constructor stores each argument as the identical object -/
+def aliasAttr (a : String) : SymVal := .ite a (.const depConst) (.param a)
+
 /-- decidable well-formedness of a constructor table: every non-alias parameter is stored as the
-round trip demands, every alias attribute holds the sentinel, every alias has a replacement that is
-a parameter, and using an alias issues a `FutureWarning`. -/
+round trip demands, every alias attribute holds the sentinel (the passed object when that is one), every
+alias has a replacement that is a parameter, and using an alias issues a `FutureWarning`. -/
 def wfInit (t : InitTable) : Bool :=
   (t.params.all fun p =>
-    if isAlias t p then lookupAttr t.attrs p == some (.const depConst)
+    if isAlias t p then lookupAttr t.attrs p == some (aliasAttr p)
     else lookupAttr t.attrs p == some (expectedAttr t p)) &&
   (t.deprecated.all fun (a, r) => t.params.contains a && t.params.contains r && !isAlias t r &&
     t.warns.contains (a, "FutureWarning"))
